@@ -60,6 +60,25 @@ CHECKS = {
                      'auth and protect level (incl. aliased protect lists and repeated loading); loaded connections equal an '
                      'independent reading, nothing but ConfigurationError is raised, unlistened my_addr is refused.',
                 note='numeric addresses only; for ill-typed values only the exception family is asserted'),
+    'C09': dict(level='exploration', design='3 C09',
+                technique='exhaustive enumeration of all interleavings up to a depth bound + Hypothesis-generated lossy/lossless '
+                          'walks through the real main_loop of both endpoints; oracle = invariants over the history (no escape, no '
+                          'contained internal error, no forbidden state step), RFC 7296 2.25 reply table read by a reference '
+                          'observer, and equality of both ends after a lossless drain',
+                text='Every schedule of depth 3 (quick) / 5 (thorough) over 12 triggers and two delivery choices from an '
+                     'established IKE_SA with one CHILD_SA, plus seeded walks of up to 40 steps with loss, duplication, stale '
+                     'replay and clock ticks; collisions answered per RFC 7296 2.25, nobody left waiting, same IKE_SAs and '
+                     'CHILD_SAs at both ends.',
+                note='exhaustive only within the stated depth and alphabet; eventual claims are bounded-time claims under the '
+                     'virtual clock'),
+    'C10': dict(level='fault_enumeration', design='3 C10',
+                technique='Hypothesis-generated histories (incl. failed negotiations and error replies produced by a keyed '
+                          'rewriter) with an invariant checked after every event: model SAD fed by the real netlink bytes == '
+                          'tracked CHILD_SAs; fault enumeration: every NEWSA request of a history refused in turn',
+                text='After every event and at every endpoint the model SAD equals the SAs of the tracked CHILD_SAs; IKE rekey '
+                     'touches no kernel state; complete grid of (trigger x side x request/response x 25 error/omission edits); '
+                     'each NEWSA of each enumerated history refused once.',
+                note='only NEWSA refusals are injected; the kernel is a model interpreting the real request bytes'),
 }
 
 NOT_YET = 'check not built yet in this session (planned, see DESIGN.md section 8)'
